@@ -138,7 +138,7 @@ def package_rules(pkg: Package, expect_mimetype=None):
     paths = [p for p, _ in entries]
     dup_m = sorted({p for p in paths if paths.count(p) > 1})
     if dup_m:
-        bad.append(("manifest-lists-path-twice", {"paths": dup_m[:5]}))
+        bad.append(("manifest-lists-path-twice", {"paths": dup_m}))
     root_types = [m for p, m in entries if p == "/"]
     if not root_types:
         bad.append(("manifest-no-root-entry", {}))
@@ -147,19 +147,53 @@ def package_rules(pkg: Package, expect_mimetype=None):
     listed = set(paths)
     unlisted = sorted(f for f in pkg.files if f not in ("mimetype", MANIFEST) and f not in listed)
     if unlisted:
-        bad.append(("file-not-listed-in-manifest", {"files": unlisted[:5]}))
+        bad.append(("file-not-listed-in-manifest", {"files": unlisted}))
     absent = []
     for p in listed:
         if p == "/":
             continue
         if p.endswith("/"):
-            if p not in pkg.dirs and not any(f.startswith(p) for f in pkg.files):
-                absent.append(p)
+            # a directory entry names no file: LibreOffice itself lists "Configurations2/" with
+            # nothing stored below it (seen in the sample corpus), so it is never "absent"
+            continue
         elif p not in pkg.files:
             absent.append(p)
     if absent:
-        bad.append(("manifest-lists-absent-path", {"paths": sorted(absent)[:5]}))
+        bad.append(("manifest-lists-absent-path", {"paths": sorted(absent)}))
     return bad
+
+
+def subtract_baseline(bad, baseline):
+    """Remove from `bad` the items (rule, path) the source package already had: the library is
+    judged on what it does to a package, not on defects of its input."""
+    base = {}
+    for rule, d in baseline:
+        for key in ("files", "paths", "names"):
+            for item in d.get(key, []):
+                base.setdefault(rule, set()).add(item)
+        if not any(k in d for k in ("files", "paths", "names")):
+            base.setdefault(rule, set()).add("*")
+    out = []
+    for rule, d in bad:
+        keyed = [k for k in ("files", "paths", "names") if k in d]
+        if not keyed:
+            if "*" in base.get(rule, ()):
+                continue
+            out.append((rule, d))
+            continue
+        k = keyed[0]
+        left = [x for x in d[k] if x not in base.get(rule, ())]
+        if left:
+            out.append((rule, dict(d, **{k: left[:6]})))
+    return out
+
+
+def source_bytes(src):
+    if src["kind"] == "sample":
+        return open(os.path.join(SAMPLES, src["name"]), "rb").read()
+    if src["kind"] == "decorated":
+        return decorated_package(src["base"])
+    return None
 
 
 # --------------------------------------------------------------------------- O-XML
@@ -624,6 +658,14 @@ def apply_edit(doc, op, model: EditModel, tmpdir):
         p = Paragraph("pic")
         p.append(Frame.image_frame(uri, size=("1cm", "1cm"), anchor_type="as-char", name=f"fr{k}"))
         doc.body.append(p)
+    elif o == "merge_styles":
+        if "content.xml" in model.frozen or "styles.xml" in model.frozen:
+            return "skipped"
+        other = ["background.odp", "example.odp", "lpod_styles.odt", "example.odt", "styled_table.ods"][k % 5]
+        from odfdo import Document
+
+        doc.merge_styles_from(Document(os.path.join(SAMPLES, other)))
+        return "merge_styles:" + other.rsplit(".", 1)[-1]
     else:
         raise KeyError(o)
     return o
